@@ -35,6 +35,8 @@ type nthread struct {
 	ctx    context.Context
 	cancel context.CancelFunc
 	gate   chan struct{} // the controller sends to let the goroutine pass its current pause
+	ack    chan struct{} // ... and the goroutine confirms that it is past it (its status says "running")
+	gid    int64         // its goroutine id, to ask the runtime whether it is really blocked
 	mu     sync.Mutex
 	status string // new | running | held:<point> | done:<res>
 	isParked bool // was let go from wait.released: if it does not return it is parked in its select
@@ -76,6 +78,55 @@ func (c *nctl) hook(name string) {
 	t.set("held:" + name)
 	<-t.gate
 	t.set("running")
+	t.ack <- struct{}{}
+}
+
+// release lets a thread that is new or held at a pause point go on, and returns once its status says so (a
+// status read afterwards is never the stale "held" of the pause it just left, however loaded the machine is).
+func (t *nthread) release() {
+	t.gate <- struct{}{}
+	<-t.ack
+}
+
+// goStates: what the runtime says every goroutine is doing ("running", "runnable", "chan receive", "select", …).
+func goStates() map[int64]string {
+	buf := make([]byte, 1<<18)
+	for {
+		n := runtime.Stack(buf, true)
+		if n < len(buf) {
+			buf = buf[:n]
+			break
+		}
+		buf = make([]byte, 2*len(buf))
+	}
+	out := map[int64]string{}
+	for _, blk := range strings.Split(string(buf), "\n\n") {
+		if !strings.HasPrefix(blk, "goroutine ") {
+			continue
+		}
+		hdr := blk
+		if i := strings.IndexByte(blk, '\n'); i >= 0 {
+			hdr = blk[:i]
+		}
+		f := strings.Fields(hdr)
+		i, j := strings.IndexByte(hdr, '['), strings.LastIndexByte(hdr, ']')
+		if len(f) < 2 || i < 0 || j < i {
+			continue
+		}
+		id, _ := strconv.ParseInt(f[1], 10, 64)
+		out[id] = hdr[i+1 : j]
+	}
+	return out
+}
+
+// reallyBlocked: the goroutine waits on a channel, a select or a lock (and is not merely waiting for a CPU).
+func reallyBlocked(state string) bool {
+	for _, p := range []string{"chan receive", "chan send", "select", "sync.", "semacquire"} {
+		if strings.HasPrefix(state, p) {
+			return true
+		}
+	}
+	return false // running, runnable, syscall, a wait inside the runtime (GC assist, …), or gone
 }
 
 func (c *nctl) start(t *nthread) {
@@ -83,8 +134,12 @@ func (c *nctl) start(t *nthread) {
 		c.mu.Lock()
 		c.byGo[goid()] = t
 		c.mu.Unlock()
+		t.mu.Lock()
+		t.gid = goid()
+		t.mu.Unlock()
 		<-t.gate // wait for the first `go`
 		t.set("running")
+		t.ack <- struct{}{}
 		res := "nil"
 		func() {
 			defer func() {
@@ -125,7 +180,7 @@ func notifyErr(err error) string {
 func (c *nctl) settle() []string {
 	var last []string
 	stable := 0
-	for i := 0; i < 4000 && stable < 6; i++ {
+	for i := 0; i < 40000 && stable < 6; i++ {
 		time.Sleep(150 * time.Microsecond)
 		cur := make([]string, len(c.threads))
 		for j, t := range c.threads {
@@ -137,6 +192,36 @@ func (c *nctl) settle() []string {
 			stable = 0
 		}
 		last = cur
+		if stable >= 6 {
+			// "running" and unchanged for a millisecond is not yet "blocked inside the library": on a loaded
+			// machine the goroutine may only be waiting for a CPU. The runtime knows the difference.
+			var states map[int64]string
+			for j, t := range c.threads {
+				if cur[j] != "running" {
+					continue
+				}
+				if states == nil {
+					states = goStates()
+				}
+				t.mu.Lock()
+				gid := t.gid
+				t.mu.Unlock()
+				if !reallyBlocked(states[gid]) {
+					stable = 0
+					break
+				}
+			}
+			// a goroutine may have gone from "running" to the gate of its next pause point between the reading of
+			// the statuses and the question to the runtime (there it is blocked, too): the statuses must still be these
+			if states != nil {
+				for j, t := range c.threads {
+					if t.get() != cur[j] {
+						stable = 0
+						break
+					}
+				}
+			}
+		}
 	}
 	return last
 }
@@ -207,7 +292,7 @@ func genNotifyProfile(w *bufio.Writer, seed uint64, n, length int) {
 			x := r.intn(10)
 			switch {
 			case len(c.threads) < maxTh && (x < 3 || len(steppable) == 0):
-				t := &nthread{gate: make(chan struct{}), status: "new"}
+				t := &nthread{gate: make(chan struct{}), ack: make(chan struct{}, 1), status: "new"}
 				switch k := r.intn(10); {
 				case k < 5:
 					t.kind, t.arg = "wait", init+int64(r.intn(4))-1
@@ -235,7 +320,7 @@ func genNotifyProfile(w *bufio.Writer, seed uint64, n, length int) {
 				if st[j] == "held:wait.released" {
 					c.threads[j].markParked()
 				}
-				c.threads[j].gate <- struct{}{}
+				c.threads[j].release()
 				st = emit(fmt.Sprintf("nt.go %d", j))
 			}
 		}
@@ -248,6 +333,7 @@ func genNotifyProfile(w *bufio.Writer, seed uint64, n, length int) {
 				for {
 					select {
 					case t.gate <- struct{}{}:
+					case <-t.ack:
 					case <-time.After(20 * time.Millisecond):
 						return
 					}
